@@ -18,6 +18,7 @@ import (
 	"strconv"
 	"strings"
 	"syscall"
+	"time"
 
 	"github.com/gobwas/httphead"
 	"github.com/gobwas/ws"
@@ -59,8 +60,14 @@ func entryPoints() []entryPoint {
 		}
 	}
 	return []entryPoint{
-		{"ws.ReadHeader", nil, true, func(src *env.Src, dst *env.Dst, max int64) (bool, error) { _, err := ws.ReadHeader(src); return false, err }},
-		{"ws.ReadFrame", nil, false, func(src *env.Src, dst *env.Dst, max int64) (bool, error) { _, err := ws.ReadFrame(src); return true, err }},
+		{"ws.ReadHeader", nil, true, func(src *env.Src, dst *env.Dst, max int64) (bool, error) {
+			_, err := ws.ReadHeader(src)
+			return false, err
+		}},
+		{"ws.ReadFrame", nil, false, func(src *env.Src, dst *env.Dst, max int64) (bool, error) {
+			_, err := ws.ReadFrame(src)
+			return true, err
+		}},
 		{"Reader.NextFrame-only/server", nil, true, func(src *env.Src, dst *env.Dst, max int64) (bool, error) {
 			rd := &wsutil.Reader{Source: src, State: ws.StateServerSide, MaxFrameSize: max}
 			_, err := rd.NextFrame()
@@ -397,7 +404,12 @@ func main() {
 				last := ""
 				done := int64(-1)
 				var results []wresult
+				// a worker that prints nothing for 3 minutes (it reports every 4096 decoder
+				// runs, each of which takes microseconds) is stuck in a decoder: kill it
+				hung := false
+				watchdog := time.AfterFunc(3*time.Minute, func() { hung = true; cmd.Process.Kill() })
 				for sc.Scan() {
+					watchdog.Reset(3 * time.Minute)
 					line := sc.Text()
 					switch {
 					case strings.HasPrefix(line, "P "):
@@ -412,6 +424,15 @@ func main() {
 					}
 				}
 				werr := cmd.Wait()
+				watchdog.Stop()
+				if hung {
+					t.DoN(0, func() string { return fmt.Sprintf("worker shard %d/%d hung after progress line %q", sh, nshards, last) }, func() *explore.Fail {
+						f := explore.Failf("hang:frame-decoder", "no progress for 3 minutes after %q", last)
+						f.Sampled = true
+						return f
+					})
+					return
+				}
 				for _, wr := range results {
 					wr := wr
 					t.DoN(0, func() string { return wr.Case }, func() *explore.Fail { f := explore.Failf(wr.Sig, "%s", wr.Detail); f.Sampled = true; return f })
@@ -475,26 +496,11 @@ func main() {
 			t.Par(len(jobs), func(i int) {
 				j := jobs[i]
 				t.Do(func() string { return fmt.Sprintf("%s seed#%d %s", j.kind, j.seed, j.desc) }, func() *explore.Fail {
-					if j.kind == "request" {
-						for _, bs := range []int{0, 16} {
-							if sig, d := hostileUpgrade(j.data, bs); sig != "" {
-								return explore.Failf(sig, "%s\ninput %q", d, j.data)
-							}
-						}
-						if sig, d := hostileUpgradeSelector(j.data); sig != "" {
-							return explore.Failf(sig, "%s\ninput %q", d, j.data)
-						}
-						if sig, d := hostileHTTPUpgrade(j.data); sig != "" {
-							return explore.Failf(sig, "%s\ninput %q", d, j.data)
-						}
-					} else {
-						for _, bs := range []int{0, 16} {
-							if sig, d := hostileDial(j.data, bs); sig != "" {
-								return explore.Failf(sig, "%s\ninput %q", d, j.data)
-							}
-						}
+					var inner *explore.Fail
+					if f := explore.Hang("handshake-"+j.kind, 20*time.Second, func() { inner = handshakeCase(j.kind, j.data) }); f != nil {
+						return f
 					}
-					return nil
+					return inner
 				})
 			})
 			t.Outcome("returned")
@@ -518,55 +524,18 @@ func main() {
 			t.Par(len(strs), func(i int) {
 				s := strs[i]
 				t.Do(func() string { return fmt.Sprintf("option string %q", s) }, func() *explore.Fail {
-					var sig, detail string
-					func() {
-						defer func() {
-							if r := recover(); r != nil {
-								sig, detail = "panic:option-string", fmt.Sprintf("%v", r)
-							}
-						}()
-						// direct: header parser -> parameters / negotiator
-						opts, _ := httphead.ParseOptions(s, nil)
-						for _, o := range opts {
-							var p wsflate.Parameters
-							p.Parse(o)
-							e := &wsflate.Extension{Parameters: wsflate.DefaultParameters}
-							e.Negotiate(o)
-							o2 := httphead.Option{Name: []byte("permessage-deflate"), Parameters: o.Parameters}
-							e.Negotiate(o2)
-						}
-						httphead.ScanTokens(s, func([]byte) bool { return true })
-					}()
-					if sig != "" {
-						return explore.Failf(sig, "%s", detail)
+					var inner *explore.Fail
+					if f := explore.Hang("option-string", 20*time.Second, func() { inner = optionCase(s) }); f != nil {
+						return f
 					}
-					// as header values of a request and of a response
-					if bytes.IndexByte(s, 0) < 0 || true {
-						req := []byte("GET / HTTP/1.1\r\nHost: h\r\nUpgrade: websocket\r\nConnection: Upgrade\r\nSec-WebSocket-Version: 13\r\nSec-WebSocket-Key: " + hs.CanonKey +
-							"\r\nSec-WebSocket-Protocol: " + string(s) + "\r\nSec-WebSocket-Extensions: " + string(s) + "\r\nSec-WebSocket-Extensions: permessage-deflate; " + string(s) + "\r\n\r\n")
-						if sig, d := hostileUpgrade(req, 0); sig != "" {
-							return explore.Failf(sig, "%s", d)
-						}
-						if sig, d := hostileUpgradeSelector(req); sig != "" {
-							return explore.Failf(sig, "%s", d)
-						}
-						if sig, d := hostileHTTPUpgrade(req); sig != "" {
-							return explore.Failf(sig, "%s", d)
-						}
-						resp := []byte("HTTP/1.1 101 Switching Protocols\r\nUpgrade: websocket\r\nConnection: Upgrade\r\nSec-WebSocket-Accept: " + hs.Accept(hs.CanonKey) +
-							"\r\nSec-WebSocket-Protocol: " + string(s) + "\r\nSec-WebSocket-Extensions: " + string(s) + "\r\n\r\n")
-						if sig, d := hostileDial(resp, 0); sig != "" {
-							return explore.Failf(sig, "%s", d)
-						}
-					}
-					return nil
+					return inner
 				})
 			})
 			t.Outcome("returned")
 		})
 
 		r.Part("E4-deflate-payloads", func(t *explore.T) {
-			run := func(p []byte) (sig, detail string) {
+			runInner := func(p []byte) (sig, detail string) {
 				defer func() {
 					if r := recover(); r != nil {
 						sig, detail = "panic:DecompressFrame", fmt.Sprintf("%v", r)
@@ -586,6 +555,15 @@ func main() {
 					return "reads-without-progress:wsflate.Reader", fmt.Sprintf("%d reads for %d bytes", src.Reads, len(p))
 				}
 				return "", ""
+			}
+			// every case runs under a watchdog: a decoder that spins without consuming input
+			// never comes back, which no post-hoc counter can see
+			run := func(p []byte) (sig, detail string) {
+				q := append([]byte{}, p...)
+				if f := explore.Hang("DecompressFrame/wsflate.Reader", 20*time.Second, func() { sig, detail = runInner(q) }); f != nil {
+					return f.Sig, f.Detail + fmt.Sprintf(" (input %x)", q)
+				}
+				return sig, detail
 			}
 			maxLen := t.Pick(2, 3)
 			total := 1
@@ -651,6 +629,76 @@ func main() {
 			t.Outcome("returned")
 		})
 	})
+}
+
+// optionCase feeds one option string to every consumer of extension / subprotocol header values.
+func optionCase(s []byte) *explore.Fail {
+	var sig, detail string
+	func() {
+		defer func() {
+			if r := recover(); r != nil {
+				sig, detail = "panic:option-string", fmt.Sprintf("%v", r)
+			}
+		}()
+		// direct: header parser -> parameters / negotiator
+		opts, _ := httphead.ParseOptions(s, nil)
+		for _, o := range opts {
+			var p wsflate.Parameters
+			p.Parse(o)
+			e := &wsflate.Extension{Parameters: wsflate.DefaultParameters}
+			e.Negotiate(o)
+			o2 := httphead.Option{Name: []byte("permessage-deflate"), Parameters: o.Parameters}
+			e.Negotiate(o2)
+		}
+		httphead.ScanTokens(s, func([]byte) bool { return true })
+	}()
+	if sig != "" {
+		return explore.Failf(sig, "%s", detail)
+	}
+	// as header values of a request and of a response
+	if bytes.IndexByte(s, 0) < 0 || true {
+		req := []byte("GET / HTTP/1.1\r\nHost: h\r\nUpgrade: websocket\r\nConnection: Upgrade\r\nSec-WebSocket-Version: 13\r\nSec-WebSocket-Key: " + hs.CanonKey +
+			"\r\nSec-WebSocket-Protocol: " + string(s) + "\r\nSec-WebSocket-Extensions: " + string(s) + "\r\nSec-WebSocket-Extensions: permessage-deflate; " + string(s) + "\r\n\r\n")
+		if sig, d := hostileUpgrade(req, 0); sig != "" {
+			return explore.Failf(sig, "%s", d)
+		}
+		if sig, d := hostileUpgradeSelector(req); sig != "" {
+			return explore.Failf(sig, "%s", d)
+		}
+		if sig, d := hostileHTTPUpgrade(req); sig != "" {
+			return explore.Failf(sig, "%s", d)
+		}
+		resp := []byte("HTTP/1.1 101 Switching Protocols\r\nUpgrade: websocket\r\nConnection: Upgrade\r\nSec-WebSocket-Accept: " + hs.Accept(hs.CanonKey) +
+			"\r\nSec-WebSocket-Protocol: " + string(s) + "\r\nSec-WebSocket-Extensions: " + string(s) + "\r\n\r\n")
+		if sig, d := hostileDial(resp, 0); sig != "" {
+			return explore.Failf(sig, "%s", d)
+		}
+	}
+	return nil
+}
+
+// handshakeCase feeds one hostile request / response to every handshake entry point.
+func handshakeCase(kind string, data []byte) *explore.Fail {
+	if kind == "request" {
+		for _, bs := range []int{0, 16} {
+			if sig, d := hostileUpgrade(data, bs); sig != "" {
+				return explore.Failf(sig, "%s\ninput %q", d, data)
+			}
+		}
+		if sig, d := hostileUpgradeSelector(data); sig != "" {
+			return explore.Failf(sig, "%s\ninput %q", d, data)
+		}
+		if sig, d := hostileHTTPUpgrade(data); sig != "" {
+			return explore.Failf(sig, "%s\ninput %q", d, data)
+		}
+		return nil
+	}
+	for _, bs := range []int{0, 16} {
+		if sig, d := hostileDial(data, bs); sig != "" {
+			return explore.Failf(sig, "%s\ninput %q", d, data)
+		}
+	}
+	return nil
 }
 
 func firstLines(s string, n int) string {
